@@ -6,6 +6,7 @@ package interp
 // produced here.
 
 import (
+	"go/token"
 	"fmt"
 	"go/types"
 	"strconv"
@@ -130,6 +131,30 @@ func init() {
 		}
 		panic(pathAbort{"unsupported: yaml Decode into " + target.t.String()})
 	})
+}
+
+func init() {
+	// yaml.Unmarshal(b, out): the first document of a vrtYamlFile stream (as the real function does); other text is
+	// handed to the real yaml.Unmarshal
+	externals["gopkg.in/yaml.v3.Unmarshal"] = func(fr *frame, a []value) value {
+		b := a[0].([]value)
+		s, ok := mkStr(b).(string)
+		if !ok || !strings.HasPrefix(s, yamlMarker) {
+			fn := fr.i.prog.ImportedPackage("gopkg.in/yaml.v3").Func("Unmarshal")
+			return callSSA(fr.i, fr, token.NoPos, fn, a, nil)
+		}
+		id, _ := strconv.Atoi(strings.TrimSpace(strings.TrimPrefix(s, yamlMarker)))
+		d := &yamlDec{}
+		fs := fr.i.ps.vfs()
+		if id < len(fs.yamlDocs) {
+			d.docs = fs.yamlDocs[id]
+		}
+		if len(d.docs) == 0 {
+			return iface{}
+		}
+		v := value(d)
+		return externals["(*gopkg.in/yaml.v3.Decoder).Decode"](fr, []value{&v, a[1]})
+	}
 }
 
 func cleanPath(p string) string {
